@@ -274,6 +274,8 @@ ErrorNamesStep ==
 \* a failing step is reported whenever Start waits for the exec (not the early-return modes)
 FailureReported ==
   (ppc = "done" /\ fail.step # "none" /\ ~Early(opt) /\ cbres # "err") => ret.kind = "err"
+\* the pure predicate the C07 judge uses agrees with the machine
+ReportedAgrees == (ppc = "done" /\ fail # NoFail /\ cbres # "err") => ((ret.kind = "err") <=> Reported(opt, fail))
 \* Start returns (except in the known hang)
 Returns == HangCombo(opt) \/ <>(ppc = "done")
 \* ... and the known hang is a real one: Start never returns
